@@ -175,6 +175,8 @@ func verifK_NoFCReceiver() {
 	for i, id := range got {
 		verifAssert(id == i+1, "C01+C11.k-nofc-fifo-prefix")
 	}
+	nr := rcv.(*noFlowControlReceiver[vitem])
+	verifAssert(!verifMutexHeld(&nr.ingestMu), "C15.k-nofc-lock-released")
 }
 
 // K-REGKEY (C12 C15): concurrent registration / lookup for one affinity key.
@@ -208,6 +210,7 @@ func verifK_RegistryKey() {
 	p1, p2 := h.pickKey("k"), h.pickKey("k")
 	verifAssert(p1 != nil && p2 != nil && p1 != p2, "C12.k-both-tunnels-reachable-round-robin")
 	verifAssert(len(h.AllReverseTunnels()) == 2, "C12.k-all-lists-both")
+	verifAssert(!verifMutexHeld(&h.mu) && !verifMutexHeld(&h.reverse.mu), "C15.k-registry-locks-released")
 }
 
 // K-IDS (C08 C13 C15): goroutines starting RPCs concurrently: ids reach the wire
